@@ -157,9 +157,9 @@ func c07Invariants(c *deps.Code, m *c07Model, lens map[uint64]uint64) string {
 			if !ok || cb.Begin() != b.Begin() {
 				return fmt.Sprintf("Code.Address(%#x) does not find block %#x", in.Begin(), b.Begin())
 			}
-			cb, ok = c.Address(in.Begin() + 2)
+			cb, ok = c.Address(in.Begin() + 1)
 			if !ok || cb.Begin() != b.Begin() {
-				return fmt.Sprintf("Code.Address(%#x) (mid-instruction) does not find block %#x", in.Begin()+2, b.Begin())
+				return fmt.Sprintf("Code.Address(%#x) (mid-instruction) does not find block %#x", in.Begin()+1, b.Begin())
 			}
 		}
 		if _, ok := b.Address(b.Begin() - 1); ok {
@@ -299,13 +299,18 @@ func c07Apply(c *deps.Code, m *c07Model, op c07Op, lens map[uint64]uint64) (stri
 func newC07SysSyn(seq []int) (*c07Sys, error) {
 	al := synAlphabet()
 	var pins []parser.Instruction
-	for i, k := range seq {
-		pins = append(pins, parser.Instruction{Type: al[k].Typ, Addr: model.Addr(0x1000 + 4*i), Bytes: make([]byte, 4), Effects: al[k].Effs, Details: synDetails{al[k].Name}})
+	// synthetic instructions have different byte lengths (2, 4 or 6 by alphabet index):
+	// address bookkeeping of moves must not rely on a uniform length
+	addr := uint64(0x1000)
+	for _, k := range seq {
+		n := []int{4, 2, 6}[k%3]
+		pins = append(pins, parser.Instruction{Type: al[k].Typ, Addr: model.Addr(addr), Bytes: make([]byte, n), Effects: al[k].Effs, Details: synDetails{al[k].Name}})
+		addr += uint64(n)
 	}
 	s := &c07Sys{syn: append([]int{}, seq...), entry: 0x1000, ins: pins, lens: map[uint64]uint64{},
-		segs: []prog.Seg{{Base: 0x1000, Words: make([]uint32, len(seq))}}}
+		segs: []prog.Seg{{Base: 0x1000, Words: make([]uint32, (addr-0x1000+3)/4)}}}
 	for _, in := range pins {
-		s.lens[uint64(in.Addr)] = 4
+		s.lens[uint64(in.Addr)] = uint64(len(in.Bytes))
 	}
 	if _, err := prog.Code(0x1000, pins); err != nil {
 		return nil, err
@@ -638,7 +643,7 @@ func c07Codes(r *eng.Run) []*c07Sys {
 func init() {
 	checks["C07"] = eng.Check{
 		Hist:        true,
-		Rule:        "explicit-state BFS to closure (state = block order + per-block instruction order) on every single-block code of <=3 (thorough 4) instructions over a 14-word alphabet built around the dependency rules, every (quick: a third of the) single-block code of 2..3 synthetic instructions from the 17-instruction alphabet of C06 (multi-store, multi-write, multi-space effects) and 4 multi-block codes (branches, gaps, mid-code entry, blocks of different sizes); menu in every state: Block.Move(i,j) for all i,j in [-1,n] of every block, Code.Move(i,j) for all i,j in [-1,nb]; successor = fresh real code + replay of the shortest path + the operation. Oracles: admission iff positions valid and target within the bounds reported before the move; rejected => full snapshot unchanged; accepted => model rotation; per state: own bounds, contiguous addresses, indices, Block.Address/Code.Address lookups incl. begin-1/mid/end, every dependency edge (hook) ordered; equal orders reached by different histories must have equal snapshots. Second pass per code: a depth-3 (thorough 4) DFS tour over accepted, rejected and undo moves on ONE long-lived instance (never rebuilt) with the same oracles after every operation, so that state hidden from the snapshot (caches) accumulated over a history is exercised. Non-trivial = code with at least 2 reachable states.",
+		Rule:        "explicit-state BFS to closure (state = block order + per-block instruction order) on every single-block code of <=3 (thorough 4) instructions over a 14-word alphabet built around the dependency rules, every (quick: a third of the) single-block code of 2..3 synthetic instructions from the 17-instruction alphabet of C06 (multi-store, multi-write, multi-space effects; byte lengths 2, 4 and 6) and 4 multi-block codes (branches, gaps, mid-code entry, blocks of different sizes); menu in every state: Block.Move(i,j) for all i,j in [-1,n] of every block, Code.Move(i,j) for all i,j in [-1,nb]; successor = fresh real code + replay of the shortest path + the operation. Oracles: admission iff positions valid and target within the bounds reported before the move; rejected => full snapshot unchanged; accepted => model rotation; per state: own bounds, contiguous addresses, indices, Block.Address/Code.Address lookups incl. begin-1/mid/end, every dependency edge (hook) ordered; equal orders reached by different histories must have equal snapshots. Second pass per code: a depth-3 (thorough 4) DFS tour over accepted, rejected and undo moves on ONE long-lived instance (never rebuilt) with the same oracles after every operation, so that state hidden from the snapshot (caches) accumulated over a history is exercised. Non-trivial = code with at least 2 reachable states.",
 		Assumptions: []string{"dependency edges read through the add-only hook deps.VerifEdges"},
 		Run: func(r *eng.Run) {
 			codes := c07Codes(r)
